@@ -25,7 +25,7 @@ import sys
 import time
 
 REPO = os.environ.get("VERIF_REPO", "/repo")
-PLAN = {"quick": {"n": 3, "blocks": 6}, "thorough": {"n": 60, "blocks": 8}}
+PLAN = {"quick": {"n": 6, "blocks": 14}, "thorough": {"n": 60, "blocks": 16}}
 
 
 def _sh(cmd, cwd=None, log=None, timeout=3600):
